@@ -533,6 +533,18 @@ func (c *Ctx) ignoreGatePred(codeOK, posOK func(v ssa.Value) bool, detail *strin
 	}
 }
 
+// notTestFileLit: !strings.HasSuffix(<name of the walked file>, "_test.go").
+func (c *Ctx) notTestFileLit(l Lit) bool {
+	call := c.P.litCallTo(l, "strings.HasSuffix")
+	if call == nil || l.Pos {
+		return false
+	}
+	if cs, ok := call.Call.Args[1].(*ssa.Const); !ok || cs.Value == nil || cs.Value.ExactString() != `"_test.go"` {
+		return false
+	}
+	return c.descHas(call.Call.Args[0], "go/token.Position.Filename", "(*go/token.FileSet).Position", "(*go/ast.File).Pos; iterelem0(call((*config.Config).FilterFiles")
+}
+
 func (c *Ctx) ruleSitesTONL() {
 	P := c.P
 	rule := "GUARD-SIG(TONL)"
@@ -545,16 +557,7 @@ func (c *Ctx) ruleSitesTONL() {
 		var detail string
 
 		// ---- not in a _test.go file, whatever the configuration (C03, C14)
-		tf := si.take("test-file", func(l Lit) bool {
-			call := P.litCallTo(l, "strings.HasSuffix")
-			if call == nil || l.Pos {
-				return false
-			}
-			if cs, ok := call.Call.Args[1].(*ssa.Const); !ok || cs.Value == nil || cs.Value.ExactString() != `"_test.go"` {
-				return false
-			}
-			return c.descHas(call.Call.Args[0], "go/token.Position.Filename", "(*go/token.FileSet).Position", "(*go/ast.File).Pos; iterelem0(call((*config.Config).FilterFiles")
-		})
+		tf := si.take("test-file", c.notTestFileLit)
 		si.take("test-file", func(l Lit) bool {
 			call := litCall(l)
 			return call != nil && !l.Pos && call.Call.StaticCallee() != nil && FuncName(call.Call.StaticCallee()) == "testonly.isTestFile"
